@@ -59,6 +59,7 @@ class C16(Check):
         [("slice", 0, 2), ("slice", 1, 2)],
         [("int", 1)],
         [("mask",)],
+        [("masklist", 5)],
         [("take", 2)],
         [("take", 4)],
         [("split_concat", 1)],
@@ -85,7 +86,7 @@ class C16(Check):
         for cls, subsets in (("BaseSamples", ["all", "ll", "none"]), ("Samples", ["all", "none"]), ("SMCSamples", ["all"])):
             for sub in subsets:
                 for k, seq in enumerate(seqs):
-                    if sub != "all" and tier == "quick" and k not in (0, 3, 6, 7, 8):
+                    if sub != "all" and tier == "quick" and k not in (0, 3, 4, 7, 8, 9):
                         continue
                     out.append({"name": f"{cls}-{sub}-seq{k}", "cls": cls, "subset": sub, "seq": [list(o) for o in seq], "N": N, "d": 2, "timeout_ms": 60000})
         return out
@@ -148,6 +149,10 @@ class C16(Check):
             out = cur[m]
             keep = [ctx.branch(z3.Bool(f"m{step}_{i}")) for i in range(n)]
             return out, ref.select(lambda rows: [r for r, k in zip(rows, keep) if k])
+        if kind == "masklist":
+            # a plain python list of bools (e.g. mask.tolist()) is a mask too
+            keep = [bool((op[1] >> i) & 1) for i in range(n)]
+            return cur[keep], ref.select(lambda rows: [r for r, k in zip(rows, keep) if k])
         if kind == "take":
             M = op[1]
             cells = np.empty((M,), dtype=object)
@@ -182,7 +187,7 @@ class C16(Check):
         raise core.HarnessError(f"unknown op {op}")
 
     def compare(self, ctx, cfg, out, ref, params, orig, last):
-        pre = {"slice": "select", "int": "select", "mask": "select", "take": "select", "split_concat": "concat", "pickle": "pickle", "dict_flat": "dict", "dict_nested": "dict"}[last]
+        pre = {"slice": "select", "int": "select", "mask": "select", "masklist": "select", "take": "select", "split_concat": "concat", "pickle": "pickle", "dict_flat": "dict", "dict_nested": "dict"}[last]
         scalar = getattr(ref, "scalar", False)
         n = len(ref.x)
         xs = out.x
@@ -293,6 +298,12 @@ def replay_c16(cex):
                     sel = np.array([bool(env.get(f"m{step}_{i}", i % 2 == 0)) for i in range(n)])
                 elif kind == "take":
                     sel = np.array([int(round(float(env.get(f"i{step}_{k}", k % n) or 0))) % n for k in range(op[1])])
+                elif kind == "masklist":
+                    sel = np.array([bool((op[1] >> i) & 1) for i in range(n)])
+                    cur = cur[sel.tolist()]
+                    ref = {k: (v[sel] if v is not None else None) for k, v in ref.items()}
+                    extra = {k: v[sel] for k, v in extra.items()}
+                    continue
                 if kind in ("slice", "int", "mask", "take"):
                     cur = cur[sel]
                     ref = {k: (v[sel] if v is not None else None) for k, v in ref.items()}
